@@ -68,8 +68,8 @@ def loops_of(fn_node):
         for c in ast.iter_child_nodes(n):
             if isinstance(c, (ast.FunctionDef, ast.AsyncFunctionDef, ast.ClassDef, ast.Lambda)):
                 continue
-            if isinstance(c, (ast.For, ast.While)):
-                out.append(c)
+            if isinstance(c, (ast.For, ast.While, ast.ListComp)):
+                out.append(c)  # a list comprehension is a loop (over its single generator) that appends
             walk(c)
 
     walk(fn_node)
@@ -752,9 +752,28 @@ class Executor:
                     elif f.attr in MUTATING:
                         w.update(target_root(recv))
                 elif isinstance(f, ast.Name):
-                    sp = self.function_spec(f.id)
-                    if sp is not None:
-                        w.update(self.callee_mods_in_caller(sp, n))
+                    ov = st.vars.get(f.id)
+                    if ov is not None and isinstance(ov.t, TObj):
+                        # callable object: the write set of its __call__ contract
+                        sp = self.reg.find_method(ov.t.cls, "__call__")
+                        if sp is None:
+                            raise Unsupported(f"call of object {f.id} without a __call__ contract")
+                        for mname in sp.modifies:
+                            w.add(mname.replace("self", f.id, 1) if mname.startswith("self") else mname)
+                    else:
+                        sp = self.function_spec(f.id)
+                        if sp is not None:
+                            w.update(self.callee_mods_in_caller(sp, n))
+                            # arguments the callee may modify (lists passed by name)
+                            a = n.args
+                            try:
+                                _, cfn, ccls = self.resolver(sp)
+                                params = [p.arg for p in list(cfn.args.posonlyargs) + list(cfn.args.args) if not (p.arg == "self" and ccls)]
+                                for pn, an in zip(params, a):
+                                    if pn in sp.modifies:
+                                        w.update(target_root(an))
+                            except Exception:
+                                pass
             for c in ast.iter_child_nodes(n):
                 visit(c)
 
